@@ -294,7 +294,7 @@ class C05:
                    'only the active member of a union is dumped']
 
     def budget(self, tier):
-        return 800 if tier == 'quick' else 20000
+        return 800 if tier == 'quick' else 10000
 
     def gen_case(self, ch):
         r = R(ch)
